@@ -420,6 +420,17 @@ def Doc.ancFuel (d : Doc) : Nat → Nat → List Nat
 
 def Doc.anc (d : Doc) (i : Nat) : List Nat := d.ancFuel d.length i
 
+/-- Is the table a pre-order listing of a forest (parents first; the next element is a child of the
+    current one or of one of its ancestors, or a new root)?  Hypothesis `PreOrder` of C14c/d, decidable. -/
+def Doc.isPreOrder (d : Doc) : Bool :=
+  (List.range d.length).all (fun j =>
+    (match d.parent j with
+     | none => true
+     | some p => decide (p < j)) &&
+    (match d.parent (j + 1) with
+     | none => true
+     | some p => p == j || (d.anc j).contains p))
+
 def nameOk (d : Doc) (name : Str) (i : Nat) : Bool := name = ['*'] || d.name i = name
 
 /-- The children of the parent that carry the same tag name (`childrenOfRelevance`). -/
